@@ -209,6 +209,14 @@ func init() {
 					for j := 0; j < k; j++ {
 						var err error
 						kind := ""
+						ctx := ctx
+						if rng.Intn(4) == 0 {
+							// a caller that gives up almost at once: its cancellation path runs while the reader goroutine
+							// is dispatching acknowledgements for the other callers
+							c2, cn := context.WithTimeout(ctx, time.Duration(20+rng.Intn(300))*time.Microsecond)
+							defer cn()
+							ctx = c2
+						}
 						switch rng.Intn(9) {
 						case 0, 1:
 							err = c.Publish(ctx, &mqtt.Message{Topic: fmt.Sprintf("t/%d", i), QoS: mqtt.QoS0, Payload: bigPayload(rng)})
